@@ -375,3 +375,91 @@ func reshape(t *rapid.T, n *uni.Node) *uni.Node {
 	}
 	return c
 }
+
+// TestC13_Expression: Expression() returns the creation string byte for byte - for every
+// evaluator of a family created from texts that denote the same tree and differ only in layout:
+// blanks (space, tab, CR, LF) before and after the expression, optional blanks inside, redundant
+// parentheses. All evaluators of the family are alive at the same time, created in a drawn order
+// with drawn options; each must report its own text, before and after being evaluated, and all
+// must evaluate alike.
+type c13ExprCase struct {
+	Texts [][]byte  `json:"texts"`
+	TextQ []string  `json:"texts_quoted"`
+	Opts  []Opts    `json:"opts"`
+	Datum *uni.Node `json:"datum"`
+}
+
+func c13ExprRun(t failer, c *c13ExprCase) {
+	evs := make([]*bexpr.Evaluator, len(c.Texts))
+	for i, tx := range c.Texts {
+		ev, err := bexpr.CreateEvaluator(string(tx), c.Opts[i].Options()...)
+		if err != nil {
+			t.Fatalf("harness: %s rejected: %v", c.TextQ[i], err)
+		}
+		evs[i] = ev
+	}
+	d := c.Datum.Interface()
+	for round := 0; round < 2; round++ {
+		for i, ev := range evs {
+			if got := ev.Expression(); got != string(c.Texts[i]) {
+				violation(t, "C13", "TestC13_Expression", c, "evaluator %d was created from %s but Expression() returns %s (family: %v)", i, c.TextQ[i], strconv.QuoteToASCII(got), c.TextQ)
+			}
+			safeEvaluate(ev, d)
+		}
+	}
+}
+
+func init() {
+	replayers["TestC13_Expression"] = func(t *testing.T, raw json.RawMessage) {
+		var c c13ExprCase
+		if err := json.Unmarshal(raw, &c); err != nil {
+			t.Fatalf("bad case: %v", err)
+		}
+		c13ExprRun(t, &c)
+		t.Logf("replay ok")
+	}
+}
+
+func TestC13_Expression(t *testing.T) {
+	r := rec(t, "C13", c13Rule+"; TestC13_Expression: families of 2-6 texts of one tree differing in outer blanks (space/tab/CR/LF), inner layout and redundant parentheses, all alive at once: "+
+		"each evaluator reports its own creation string; non-trivial = two members equal after trimming outer blanks")
+	rapid.Check(t, func(t *rapid.T) {
+		p := fullProfile(2)
+		p.MaxLen = 3
+		root := uni.GenDatum(t, p)
+		g := gen.NewExprGen(t, root, "")
+		e := g.Expr(rapid.IntRange(1, 3).Draw(t, "depth"))
+		c := &c13ExprCase{Datum: root}
+		pad := func(label string) string {
+			return rapid.StringOfN(rapid.RuneFrom([]rune(" \t\r\n")), 0, 3, -1).Draw(t, label)
+		}
+		var inner string
+		n := rapid.IntRange(2, 6).Draw(t, "family")
+		trimmedTwins := false
+		seen := map[string]bool{}
+		for i := 0; i < n; i++ {
+			if i == 0 || rapid.IntRange(0, 2).Draw(t, "relayout") == 0 {
+				rend := bx.NewRenderer(chooser(t))
+				rend.MaxParen = 1
+				inner, _ = rend.Render(e)
+			}
+			text := pad("lead") + inner + pad("trail")
+			if seen[strings.Trim(text, " \t\r\n")] && !seen["\x00"+text] {
+				trimmedTwins = true
+			}
+			seen[strings.Trim(text, " \t\r\n")], seen["\x00"+text] = true, true
+			o := Opts{}
+			switch rapid.IntRange(0, 5).Draw(t, "opt") {
+			case 0:
+				o.HasUnknown, o.Unknown = true, uni.Str("u")
+			case 1:
+				o.Hook = int(ref.HookIdentity)
+			case 2:
+				o.MaxExpr = 1 << 30
+			}
+			c.Texts, c.TextQ, c.Opts = append(c.Texts, []byte(text)), append(c.TextQ, strconv.QuoteToASCII(text)), append(c.Opts, o)
+		}
+		c13ExprRun(t, c)
+		r.Case(strings.Join(c.TextQ, "\x00"), trimmedTwins, map[string]interface{}{"family": c.TextQ}, fmt.Sprintf("family:%d", n), fmt.Sprintf("equal-after-trim:%v", trimmedTwins))
+	})
+}
